@@ -7,6 +7,8 @@ import (
 	"time"
 )
 
+var devCmds = map[string]func(c *CheckCtx) error{}
+
 // development entry points (not used by the manifest)
 func runDev(args []string) (int, error) {
 	if len(args) < 2 {
@@ -20,6 +22,16 @@ func runDev(args []string) (int, error) {
 	c := &CheckCtx{Prop: "DEV", Tier: "quick", Seed: seed(), Sc: sc, Workers: runtime.NumCPU(), start: time.Now(),
 		Nontrivial: map[string]int{}, Stats: map[string]int{}, KnownHit: map[string]string{}}
 	loadFindings()
+	if f, ok := devCmds[args[1]]; ok {
+		c.Prop = "C09"
+		if len(args) > 2 {
+			c.Prop = args[2]
+		}
+		if err := f(c); err != nil {
+			return 2, err
+		}
+		return c.finish()
+	}
 	switch args[1] {
 	case "framing":
 		g := newFgen(c.Seed, "h")
@@ -65,3 +77,12 @@ func runDev(args []string) (int, error) {
 
 func runReplay(prop, file string) (int, error) { return 2, errNotImplemented }
 func runSelftest(fast bool) (int, error)       { return 0, nil }
+
+func init() {
+	devCmds["clean1"] = func(c *CheckCtx) error {
+		g := newFgen(c.Seed*31+5, "m")
+		rs := genCleanScenarios(g, 3, allAPIs, []string{"clean"},
+			cleanGenOpts{maxTests: 3, maxCalls: 3, change: 0.4, drop: 0.2, add: 0.2, staleProb: 1, decoyProb: 1, sortProb: 0.5, againProb: 0.2})
+		return c.runSeq(rs)
+	}
+}
